@@ -84,5 +84,60 @@ def mut_md(ts, key):
 
 
 def jsonable_opts(kw):
-    return {k: (None if v is None else (float(v) if isinstance(v, (int, float)) and not isinstance(v, bool) else v))
-            for k, v in kw.items()}
+    out = {}
+    for k, v in kw.items():
+        if isinstance(v, (bool, str)) or v is None:
+            out[k] = v
+        elif isinstance(v, (int, np.integer)):
+            out[k] = int(v)
+        elif isinstance(v, (float, np.floating)):
+            out[k] = float(v)
+        else:
+            out[k] = v
+    return out
+
+
+def result_arrays(out):
+    """everything C06-C09 compare: times, posterior moments, mutation nodes"""
+    return {
+        "node_time": np.array(out.nodes_time),
+        "mut_time": np.array(out.mutations_time),
+        "node_mn": node_md(out, "mn"), "node_vr": node_md(out, "vr"),
+        "mut_mn": mut_md(out, "mn"), "mut_vr": mut_md(out, "vr"),
+        "mut_node": np.array(out.mutations_node, dtype=float),
+    }
+
+
+def max_rel_diff(a, b, scale=None):
+    """largest |a-b| / max(|a|,|b|,tiny) over all arrays (nan == nan); scale: dict key -> factor applied to a"""
+    worst = (0.0, None)
+    for k in a:
+        x = a[k] * (scale.get(k, 1.0) if scale else 1.0)
+        y = b[k]
+        if x.shape != y.shape:
+            return (float("inf"), k + ":shape")
+        nx, ny = np.isnan(x), np.isnan(y)
+        if not np.array_equal(nx, ny):
+            return (float("inf"), k + ":nan-pattern")
+        m = ~nx
+        if not m.any():
+            continue
+        den = np.maximum(np.maximum(np.abs(x[m]), np.abs(y[m])), 1e-300)
+        d = float(np.max(np.abs(x[m] - y[m]) / den))
+        if d > worst[0]:
+            worst = (d, k)
+    return worst
+
+
+def scale_coordinates(ts, c):
+    """multiply every genomic coordinate by c"""
+    import tskit
+    tables = ts.dump_tables()
+    tables.sequence_length = ts.sequence_length * c
+    tables.edges.left = tables.edges.left * c
+    tables.edges.right = tables.edges.right * c
+    tables.sites.position = tables.sites.position * c
+    if tables.migrations.num_rows:
+        tables.migrations.left = tables.migrations.left * c
+        tables.migrations.right = tables.migrations.right * c
+    return tables.tree_sequence()
